@@ -22,9 +22,15 @@ def _with_parity(draw, lo, hi, parity):
 
 
 @st.composite
-def shape2(draw, lo=1, hi=12, square_bias=0.15):
+def shape2(draw, lo=1, hi=12, square_bias=0.15, big=0.0, big_pool=None):
     """(rows, cols) with the four parity classes equally likely (Hypothesis' integer
-    distribution alone leaves the mixed-parity classes thin)."""
+    distribution alone leaves the mixed-parity classes thin).  With probability ``big`` at least one
+    axis is taken from a pool of sizes at and around the usual implementation thresholds."""
+    if big > 0 and draw(st.floats(0, 1)) < big:
+        pool = big_pool or BIG
+        a = draw(st.sampled_from(pool))
+        b = draw(st.sampled_from(pool)) if draw(st.booleans()) else draw(st.integers(lo, hi))
+        return (a, b) if draw(st.booleans()) else (b, a)
     pr, pc = draw(st.sampled_from([(0, 0), (0, 1), (1, 0), (1, 1)]))
     r = _with_parity(draw, lo, hi, pr)
     if pr == pc and draw(st.floats(0, 1)) < 2 * square_bias:
@@ -248,3 +254,12 @@ def scales():
     """overall magnitude of an input array: mostly 1, sometimes tiny or huge (absolute tolerances such as
     np.allclose's default atol=1e-8 silently misbehave there)"""
     return st.sampled_from([1.0, 1.0, 1.0, 1.0, 1e-4, 1e-9, 1e-12, 1e6])
+
+
+BIG = [63, 64, 65, 96, 100, 127, 128, 129, 160]
+HUGE = [255, 256, 257, 300, 511, 512, 513, 600, 700]
+
+
+def big_dim(pool=None):
+    """axis lengths at and around the usual implementation thresholds (64, 128, 256, 512)"""
+    return st.sampled_from(pool or BIG)
